@@ -21,6 +21,12 @@ from ..flow import Flow
 
 CAPY_TIMEOUT = 240
 
+# Which variant of the model mirrors the code in /repo (cfg.c_fixed in Model/Imports.v):
+#   "0" = pinned commit: `#mod("")` passes the alphanumeric test (known finding C28-1, open)
+#   "1" = after the repair `if file.is_empty() || !file.chars().all(..)` -> ModMustBeAlphanumeric
+# Flip the default to "1" when the `fix:` commit is in /repo (and mark C28-1 "fixed: <sha>").
+MODEL_FIXED = os.environ.get("VERIF_C28_MODEL_FIXED", "1") == "1"
+
 MSG = [
     (re.compile(r"^error: `(.*)` couldn't be found$"), "notfound"),
     (re.compile(r"^error: `(.*)` is outside the current working module$"), "outside"),
@@ -269,7 +275,8 @@ def model_line(t):
             else:
                 ds.append(kind)
         prog.append(hx(f) + "=" + ",".join(ds))
-    return "\t".join([hx(t.cwd), hx(t.mod), hx(t.cwd + "/main.capy"), ",".join(fs), ";".join(prog)])
+    return "\t".join([hx(t.cwd), hx(t.mod), hx(t.cwd + "/main.capy"), ",".join(fs), ";".join(prog),
+                      "1" if MODEL_FIXED else "0"])
 
 
 def run_capy(capy, t):
@@ -369,6 +376,7 @@ def run(tier, seed):
         "`file.name` resolution is type inference (hir_ty) and is only exercised end to end (exit code of main), not modelled",
         "FxHashSet iteration order of the work list is abstracted by a list; the set of compiled files is order independent (theorem), "
         "event order is compared as a multiset",
+        "MODEL_FIXED=%s (model variant compared with the code: c_fixed; C28_mod_full is proved for the fixed variant, refuted for the other)" % MODEL_FIXED,
     ]
     return fl.finish()
 
